@@ -30,7 +30,7 @@ func init() {
 			"a sysex exceeds the buffer when its total length including F0 and F7 is larger than SysExBufferSize",
 			"at the drivers.Reader level the callback contract pads 0/1-data messages with zeros to 3 bytes and reports a stray F7 as [F7 00 00] (internal contract with midi.ListenTo); at the midi.ListenTo level nothing may be delivered for a stray F7",
 		},
-		Require: []string{"streams_exhaustive", "streams_random", "deliveries_l1", "deliveries_l2", "sysex_overflows", "stray_f7", "suffix_checks", "abandoned_messages", "large_buffer_sysex_streams", "concurrent_reader_streams"},
+		Require: []string{"streams_exhaustive", "streams_random", "deliveries_l1", "deliveries_l2", "sysex_overflows", "stray_f7", "suffix_checks", "abandoned_messages", "large_buffer_sysex_streams", "concurrent_reader_streams", "streams_with_clock_wrap"},
 		Run:     runC06,
 		Post: func(m *mon.Merged) {
 			for _, cfg := range c06Cfgs {
@@ -267,6 +267,11 @@ func runC06(c *mon.Ctx) {
 			chunks[j] = s[off : off+p]
 			off += p
 			deltas[j] = int32(r.Intn(50))
+		}
+		if i%10 == 3 && len(deltas) > 2 {
+			// one very long pause in the middle of the stream: the 32-bit millisecond clock passes 2^31
+			deltas[1+r.Intn(len(deltas)-1)] = int32(r.Pick(1<<31-1, 1<<31-5000, 2_000_000_000))
+			c.Count("streams_with_clock_wrap", 1)
 		}
 		k.check(s, chunks, deltas, i%2 == 0)
 		k.countFeatures(s)
